@@ -2,6 +2,7 @@ package redis
 
 func init() {
 	vsymHarnesses["HarnessC13Conns"] = HarnessC13Conns
+	vsymHarnesses["HarnessC13Select"] = HarnessC13Select
 	vsymHarnesses["HarnessC08TwoConns"] = HarnessC08TwoConns
 }
 
@@ -157,6 +158,23 @@ func HarnessC13Conns() {
 		ends, ok := vStrictStream(pl.conn.out)
 		vsymAssert(ok && len(ends) == pl.replies, "each-connection-gets-its-own-replies")
 	}
+	// a connection opened after the others have gone starts from the defaults: database 0, no user
+	// data, not authorised when a password is required - nothing of an earlier connection is inherited
+	late := &vConnPlan{replies: 2}
+	late.in = append(vReqS("UGET"), vReqS("GET", "k")...)
+	if !needAuth {
+		late.wantUD = []byte{0, 0}
+		late.wantDB = []int{0}
+	}
+	late.conn = newVconn(late.in)
+	plans = append(plans, late)
+	server.receive(late.conn, nil)
+	vsymAssert(late.calls == len(late.wantDB), "later-connection-starts-from-defaults")
+	if needAuth {
+		vsymAssert(vBytesEq(late.conn.out, []byte("-not authrized\r\n-not authrized\r\n")), "later-connection-starts-unauthorised")
+	} else {
+		vsymAssert(late.ugets == 1, "later-connection-user-data-read-happened")
+	}
 	vsymCover("end")
 }
 
@@ -185,5 +203,83 @@ func HarnessC08TwoConns() {
 	vsymAssert(vBytesEq(a.out, []byte("-not authrized\r\n-not authrized\r\n")), "other-connection-stays-unauthorised")
 	vsymAssert(vBytesEq(b.out, []byte("+OK\r\n+OK\r\n")), "authenticated-connection-is-served")
 	vsymAssert(len(h.calls) == 1, "exactly-the-authorised-command-ran")
+	vsymCover("end")
+}
+
+// HarnessC13Select: connection-scoped state changes only through the connection's own successful
+// commands. One connection: SELECT with an arbitrary token, a data command, SELECT with another
+// token, a data command. Whatever the token, the database the handler sees afterwards is the one
+// last selected with a SELECT that was answered +OK; a refused SELECT leaves it where it was.
+func HarnessC13Select() {
+	vsymUnwind(400)
+	server := NewServer()
+	h := &vhandler{mode: 0}
+	server.SetCommandHandler(h)
+	boundary := []string{"-1", "-2", "+5", "007", "99999999999999999999", "-9223372036854775808", "9223372036854775807", "1.5", " 1", "", "0x10"}
+	tok := func(label string) []byte {
+		if vsymChoice(label+".kind", 2) == 1 {
+			return []byte(boundary[vsymChoice(label+".boundary", len(boundary))])
+		}
+		return vsymBytes(label, 1+vsymChoice(label+".len", 2))
+	}
+	t1, t2 := tok("first"), tok("second")
+	in := vReq([]byte("SELECT"), t1)
+	in = append(in, vReqS("GET", "k")...)
+	in = append(in, vReq([]byte("select"), t2)...)
+	in = append(in, vReqS("GET", "k")...)
+	in = append(in, vReqS("SELECT")...) // no argument at all: refused
+	in = append(in, vReqS("GET", "k")...)
+	conn := newVconn(in)
+	server.receive(conn, nil)
+	ends, ok := vStrictStream(conn.out)
+	vsymAssert(ok && len(ends) == 6, "six-replies")
+	if !ok || len(ends) != 6 {
+		return
+	}
+	vsymAssert(len(h.calls) == 3, "three-handler-calls")
+	if len(h.calls) != 3 {
+		return
+	}
+	reply := func(i int) []byte {
+		start := 0
+		if i > 0 {
+			start = ends[i-1]
+		}
+		return conn.out[start:ends[i]]
+	}
+	db := 0
+	for i, t := range [][]byte{t1, t2, nil} {
+		r := reply(2 * i)
+		if vBytesEq(r, []byte("+OK\r\n")) {
+			vsymAssert(t != nil, "select-without-argument-is-refused")
+			if gIsDecimal(t) && len(t) <= 3 {
+				v := 0
+				neg := false
+				for _, c := range t {
+					switch {
+					case c == '-':
+						neg = true
+					case c == '+':
+					default:
+						v = v*10 + int(c-'0')
+					}
+				}
+				if neg {
+					v = -v
+				}
+				db = v
+				vsymAssert(h.calls[i].db == db, "handler-sees-the-selected-database")
+			} else {
+				// some other accepted spelling: the handler must at least see one stable value from now on
+				db = h.calls[i].db
+			}
+			vsymCover("select-accepted")
+		} else {
+			vsymAssert(len(r) > 0 && r[0] == '-', "select-is-answered-ok-or-error")
+			vsymAssert(h.calls[i].db == db, "refused-select-leaves-the-database-unchanged")
+			vsymCover("select-refused")
+		}
+		vsymAssert(h.calls[i].db == db, "database-persists-until-the-next-successful-select")
+	}
 	vsymCover("end")
 }
